@@ -14,9 +14,9 @@ import (
 //verif:harness VerifC13_Errors quick.maxpaths=20000 thorough.maxpaths=100000 timeout=1800
 
 type zzOperand struct {
-	src string
-	num int  // numeric value (when isNum)
-	str string
+	src   string
+	num   int // numeric value (when isNum)
+	str   string
 	isNum bool
 }
 
@@ -198,8 +198,29 @@ func VerifC13_Pipes() {
 			log = append(log, "half")
 			return f / 2
 		},
+		// functions that take the render context and / or are variadic
+		"tally": func(ctx *VueContext, label string, nums ...int) string {
+			log = append(log, "tally")
+			sum := 0
+			for _, n := range nums {
+				sum += n
+			}
+			return label + ":" + strconv.Itoa(sum)
+		},
+		"cjoin": func(ctx *VueContext, parts ...string) string {
+			log = append(log, "cjoin")
+			return strings.Join(parts, "+")
+		},
+		"ctxwrap": func(ctx *VueContext, s string, pre string) string {
+			log = append(log, "ctxwrap")
+			return pre + s
+		},
+		"count": func(ctx *VueContext, vals ...any) int {
+			log = append(log, "count")
+			return len(vals)
+		},
 	}
-	chain := zzChoice("chain", 9)
+	chain := zzChoice("chain", 15)
 	var expr, want, wantLog string
 	switch chain {
 	case 0:
@@ -220,6 +241,18 @@ func VerifC13_Pipes() {
 		expr, want, wantLog = "s | joinall('a', 'b')", "axb", "joinall"
 	case 8:
 		expr, want, wantLog = "a | half", "1.5", "half"
+	case 9:
+		expr, want, wantLog = "s | tally(1, 2)", "x:3", "tally"
+	case 10:
+		expr, want, wantLog = "s | tally", "x:0", "tally"
+	case 11:
+		expr, want, wantLog = "s | cjoin('a', 'b')", "x+a+b", "cjoin"
+	case 12:
+		expr, want, wantLog = "s | ctxwrap('-') | tally(b)", "-x:4", "ctxwrap tally"
+	case 13:
+		expr, want, wantLog = "tally('n', 4, 5)", "n:9", "tally"
+	case 14:
+		expr, want, wantLog = "s | count(1, 'two')", "3", "count"
 	}
 	pos := zzChoice("pos", 2)
 	body := `<p>[{{ ` + expr + ` }}]</p>`
@@ -248,8 +281,8 @@ func VerifC13_Pipes() {
 // conversion and a returned error fail the render with an error naming the function.
 func VerifC13_Errors() {
 	funcs := FuncMap{
-		"add":  func(n int, m int) int { return n + m },
-		"boom": func(v any) (any, error) { return nil, errors.New("kaput") },
+		"add":      func(n int, m int) int { return n + m },
+		"boom":     func(v any) (any, error) { return nil, errors.New("kaput") },
 		"unsigned": func(u uint) uint { return u },
 	}
 	k := zzChoice("case", 7)
